@@ -152,4 +152,10 @@ theorem w64_session_reopen (c : Cfg) (hwf : c.wf) (stale : Int) (ops : List Op) 
   have := parse_image c hwf (sessFrames ops) (sessData ops) (by simpa using i.dlen) hsz
   exact ⟨this, this⟩
 
+/-- KF-W64-READER-LENGTH as a proved witness (foreign files only): two bytes appended to a library-written 3-frame u-law file
+    are reported as two more frames — the reader takes the audio length from the file length, not from the 'data' size -/
+theorem w64_trailing_bytes_counted :
+    parse (image { codec := 0x10, ch := 1, sr := 8000 } 3 [1, 2, 3] ++ [9, 9]) =
+      .ok { fmtWord := 0x0B0010, ch := 1, sr := 8000, frames := 5, dataoffset := 136, datalength := 5 } := by decide +kernel
+
 end Sf.C04W64
